@@ -147,6 +147,36 @@ def run(ctx):
     ctx.compare(enc_cases, 'wif-export')
     ctx.compare(dec_cases, 'wif-import')
 
+    # ---------------- BIP38: the third self-describing format.  Exported with a passphrase, recognised as private material, imported
+    # by Key and by HDKey under every witness type hint (BIP38 commits to the P2PKH address, whatever the importing object is for)
+    for d in rng.sample(secrets, 3 if not T else 8):
+        net = rng.choice(['bitcoin', 'bitcoin', 'testnet', 'litecoin'])
+        comp = rng.random() < 0.75
+        pw = rng.choice(['TestingOneTwoThree', 'x', 'pass phrase é'])
+        try:
+            enc = Key(d, network=net, compressed=comp).encrypt(pw)
+        except Exception as e:
+            viol('BIP38 export raised', op='bip38 export', secret=d, network=net, error=repr(e)[:100])
+            continue
+        ctx.evals += 1
+        ctx.count('bip38-export-import')
+        ctx.nontrivial.add(hash(('bip38', d, net, comp)))
+        kf = get_key_format(enc)
+        if kf.get('format') != 'wif_protected' or kf.get('is_private') is not True:
+            viol('format detection does not classify a BIP38 string as protected private material', op='bip38 format', detected=repr(kf)[:160])
+        importers = [('Key', lambda: Key(enc, password=pw, network=net))]
+        for wt in ((None, 'segwit', 'legacy', 'p2sh-segwit') if comp else (None, 'legacy')):
+            importers.append(('HDKey/%s' % wt, (lambda wt=wt: HDKey(enc, password=pw, network=net) if wt is None else HDKey(enc, password=pw, network=net, witness_type=wt))))
+        for name, fn in importers:
+            ctx.evals += 1
+            try:
+                k2 = fn()
+                got = (k2.secret, k2.compressed, k2.network.name, bool(k2.is_private))
+            except Exception as e:
+                got = 'raise:%s:%s' % (type(e).__name__, str(e)[:60])
+            if got != (d, comp, net, True) and not (not comp and name == 'HDKey/None' and 'Uncompressed' in str(got)):
+                viol('a BIP38 export does not import back to the same key', op='bip38 import %s' % name, secret=d, network=net, compressed=comp, observed=str(got)[:140])
+
     # ---------------- public keys: compressed <-> uncompressed on one object, incl. y coordinates with leading zero digits ----------
     pub_cases = []
     small_y = []
